@@ -25,10 +25,12 @@
 // Output (one line, sections separated by " | "):
 //   type=<mesh|pc|err> e1=<st> e2=<st> e3=<st> e4=<st> e5=<st> e6=<st>
 //       r1=<consumed>,<points>,<faces>,<atts>,<fnv64 of the dump> valid=<ok|text> input=<same|MODIFIED>
-//       mon=<0|1> max=<bytes> peak=<bytes> n=<requests> refused=<bytes> at=<entry with the largest request>
-//       declared=<count> geo=<points+faces of the largest accepted geometry>
+//       mon=<0|1> max=<bytes> peak=<bytes> n=<requests> refused=<bytes> refusedlive=<bytes> at=<entry with the largest request>
+//       maxbt=<call stack of the largest request> peakbt=<call stack of the request that set the peak>   (addr2line offsets)
+//       declared=<count> declkf=<count read by the keyframe decoder> geo=<points+faces of the largest accepted geometry>
 //   [ | <dump of e1 in the `dec` format> | <dump of e4 in the `dec` format> ]      with dump=1
 // st: ok | err | err-version | badalloc
+#include <dlfcn.h>
 #include <sys/mman.h>
 #include <unistd.h>
 
@@ -38,6 +40,7 @@
 #include "common.h"
 #include "draco/animation/keyframe_animation.h"
 #include "draco/animation/keyframe_animation_decoder.h"
+#include "draco/compression/config/compression_shared.h"
 #include "draco/compression/decode.h"
 #include "draco/core/varint_decoding.h"
 #include "draco/metadata/metadata_decoder.h"
@@ -92,28 +95,50 @@ struct Guarded {
 };
 
 // ------------------------------------------------------------------ monitor window
+// module-relative return addresses ("+<hex>" inside the executable, resolvable with addr2line; 0 elsewhere)
+std::string frames_text(void *const *frames, int n) {
+  std::string s;
+  for (int i = 0; i < n; ++i) {
+    Dl_info info;
+    uintptr_t off = 0;
+    if (dladdr(frames[i], &info) && info.dli_fbase && info.dli_fname && strstr(info.dli_fname, ".so") == nullptr)
+      off = reinterpret_cast<uintptr_t>(frames[i]) - reinterpret_cast<uintptr_t>(info.dli_fbase);
+    char b[32];
+    snprintf(b, sizeof b, "%s%lx", i ? "," : "", static_cast<unsigned long>(off));
+    s += b;
+  }
+  return s.empty() ? "-" : s;
+}
+
 struct Agg {
   bool mon = false;
-  uint64_t max = 0, peak = 0, n = 0, refused = 0;
+  uint64_t max = 0, peak = 0, n = 0, refused = 0, refused_live = 0;
   int at = -1;
+  std::string max_bt = "-", peak_bt = "-";
   void add(const VhAllocStats &s, int entry) {
     if (s.max_request > max) {
       max = s.max_request;
       at = entry;
+      max_bt = frames_text(s.max_frames, s.max_nframes);
     }
-    if (s.peak_live > peak) peak = s.peak_live;
+    if (s.peak_live > peak) {
+      peak = s.peak_live;
+      peak_bt = frames_text(s.peak_frames, s.peak_nframes);
+    }
     n += s.count;
     if (s.refused && !refused) refused = s.refused;
+    if (s.refused_live && !refused_live) refused_live = s.refused_live;
   }
 };
 
 template <class F>
 std::string guarded_call(Agg &agg, int entry, uint64_t cap, F f) {
   std::string st;
-  VhAllocStats s{0, 0, 0, 0};
+  VhAllocStats s;
+  memset(&s, 0, sizeof s);
   const bool mon = vh_alloc_begin != nullptr && vh_alloc_end != nullptr;
   agg.mon = mon;
-  if (mon) vh_alloc_begin(cap);
+  if (mon) vh_alloc_begin(cap, 32 * cap);
   try {
     st = f();
   } catch (const std::bad_alloc &) {
@@ -273,7 +298,8 @@ std::string dec_text(const PointCloud *pc, const Mesh *mesh, int64_t consumed) {
 // Conservative parse of the counts a stream may legitimately use to size arrays: number of points
 // (point clouds), points + faces (sequential mesh), encoded vertices + faces (Edgebreaker).
 // 0 when the stream is rejected before any such count is read.
-uint64_t declared_counts(const char *data, size_t n) {
+// `keyframe`: the count KeyframeAnimationDecoder (a sequential point cloud decoder that ignores the method byte) reads.
+uint64_t declared_counts(const char *data, size_t n, bool keyframe) {
   DecoderBuffer b;
   b.Init(data, n);
   char magic[5];
@@ -283,6 +309,10 @@ uint64_t declared_counts(const char *data, size_t n) {
   if (!b.Decode(&major) || !b.Decode(&minor) || !b.Decode(&type) || !b.Decode(&method) || !b.Decode(&flags))
     return 0;
   if (type > 1) return 0;
+  if (keyframe ? type != 0 : method > 1) return 0;
+  const uint8_t max_major = type == 0 ? kDracoPointCloudBitstreamVersionMajor : kDracoMeshBitstreamVersionMajor;
+  const uint8_t max_minor = type == 0 ? kDracoPointCloudBitstreamVersionMinor : kDracoMeshBitstreamVersionMinor;
+  if (major < 1 || major > max_major || (major == max_major && minor > max_minor)) return 0;
   const uint16_t ver = static_cast<uint16_t>((major << 8) | minor);
   b.set_bitstream_version(ver);
   if (ver >= 0x0103 && (flags & 0x8000)) {
@@ -294,11 +324,13 @@ uint64_t declared_counts(const char *data, size_t n) {
   if (type == 0) {
     int32_t np;
     if (!b.Decode(&np)) return 0;
+    if (!keyframe && method == 1 && np < 0) return 0;
     return static_cast<uint32_t>(np);
   }
   if (method == 0) {
     uint32_t nf, np;
     if (!rd(ver < 0x0202, &nf) || !rd(ver < 0x0202, &np)) return 0;
+    if (nf > 0xffffffffu / 3) return 0;
     return static_cast<uint64_t>(nf) + np;
   }
   uint8_t traversal;
@@ -306,6 +338,7 @@ uint64_t declared_counts(const char *data, size_t n) {
   uint32_t nnew = 0, nev, nf;
   if (ver < 0x0202 && !rd(ver < 0x0200, &nnew)) return 0;
   if (!rd(ver < 0x0200, &nev) || !rd(ver < 0x0200, &nf)) return 0;
+  if (nf > 0xffffffffu / 3 || nev > nf * 3) return 0;
   return static_cast<uint64_t>(nev) + nf;
 }
 
@@ -442,7 +475,8 @@ VH_OP(rdec) {
   });
   if (dump && st[1] != "ok") dump1 = st[1];
   const bool same = ge.same_as(src) && gs.same_as(src);
-  const uint64_t declared = declared_counts(gs.data, gs.n);
+  const uint64_t declared = declared_counts(gs.data, gs.n, false);
+  const uint64_t declared_kf = declared_counts(gs.data, gs.n, true);
   std::string out = std::string("type=") + (is_mesh ? "mesh" : is_pc ? "pc" : st[0]);
   for (int i = 1; i < 7; ++i) out += " e" + std::to_string(i) + "=" + st[i];
   out += " r1=" + r1;
@@ -450,8 +484,9 @@ VH_OP(rdec) {
   out += std::string(" input=") + (same ? "same" : "MODIFIED");
   out += std::string(" mon=") + (agg.mon ? "1" : "0") + " max=" + std::to_string(agg.max) +
          " peak=" + std::to_string(agg.peak) + " n=" + std::to_string(agg.n) +
-         " refused=" + std::to_string(agg.refused) + " at=e" + std::to_string(agg.at);
-  out += " declared=" + std::to_string(declared) + " geo=" + std::to_string(acc.geo);
+         " refused=" + std::to_string(agg.refused) + " refusedlive=" + std::to_string(agg.refused_live) +
+         " at=e" + std::to_string(agg.at) + " maxbt=" + agg.max_bt + " peakbt=" + agg.peak_bt;
+  out += " declared=" + std::to_string(declared) + " declkf=" + std::to_string(declared_kf) + " geo=" + std::to_string(acc.geo);
   out += " sink=" + std::to_string(acc.sink & 0xff);
   if (dump) out += " | " + dump1 + " | " + dump4;
   return out;
